@@ -148,6 +148,7 @@ func main() {
 	work := fs.String("work", "", "work dir")
 	verif := fs.String("verif", "/verif", "verif dir")
 	timeout := fs.Int("timeout", 0, "per-query timeout (s)")
+	updBase := fs.Bool("update-baseline", false, "record the obligation names of this run as the baseline")
 	var pos []string
 	args := os.Args[2:]
 	for len(args) > 0 && !strings.HasPrefix(args[0], "-") {
@@ -225,7 +226,7 @@ func main() {
 			fmt.Fprintln(os.Stderr, "usage: govc check <Cxx>")
 			os.Exit(2)
 		}
-		os.Exit(runCheck(pos[0], *repo, *verif, *tier, *work, tmo, *verbose))
+		os.Exit(runCheck(pos[0], *repo, *verif, *tier, *work, tmo, *verbose, *updBase))
 	case "ssa":
 		prog, err := loadProgram(*repo)
 		if err != nil {
